@@ -99,6 +99,44 @@ func (s *Sim) doDeadRead(o *Op) {
 // doCacheIll: registering a registered filter and unregistering twice must panic and leave
 // all registrations working.
 func (s *Sim) doCacheIll(o *Op) {
+	if o.V == 3 || o.V == 4 {
+		// a query (3) or Batch.RemoveEntities (4) through a filter that was unregistered earlier. Whether
+		// the call is refused is not stated anywhere; but if it panics, no query is open afterwards, so
+		// the world must not be locked, and nothing may have changed.
+		if s.M.NStale == 0 {
+			s.Report(finding(CatHarness, "cacheIll v=%d without an unregistered filter", o.V))
+			return
+		}
+		for _, b := range s.Worlds() {
+			st := b.Stale[o.Slot%len(b.Stale)]
+			var p any
+			if o.V == 3 {
+				p = Call(func() { q := b.W.Query(st); q.Close() })
+			} else {
+				p = Call(func() { b.W.Batch().RemoveEntities(st) })
+			}
+			if p == nil {
+				// accepted: the world may have changed in ways the model does not describe
+				s.Aborted = true
+				if s.St != nil {
+					s.St.Count("unregistered_filter_accepted", 1)
+				}
+				return
+			}
+			if b.W.IsLocked() {
+				s.Report(finding(CatLock, "%s: a call through an unregistered cached filter panicked (%v) and left the world locked although no query is open: %s", b.Name, p, o.Describe()))
+				return
+			}
+			noHooks := FullVerify
+			noHooks.Hooks = false
+			if err := b.Verify(s.M, noHooks); err != nil {
+				s.Report(finding(CatIllegal, "%s: a call through an unregistered cached filter panicked but changed the world: %v", b.Name, err))
+				return
+			}
+		}
+		s.label("call through an unregistered cached filter refused")
+		return
+	}
 	if o.V == 2 {
 		// a filter that was unregistered earlier (other filters may have been registered since)
 		if s.M.NStale == 0 {
